@@ -454,7 +454,8 @@ package raft
 //@   ensures #compacted [C18] (lo < log_first(l) ==> result == ErrCompacted) && (lo >= log_first(l) ==> result == nil)
 
 //@ func raft.raftLog.slice [C18 C16 C08 C14]
-//@   reveal wf_raftLog, wf_unstable, wf_storage, log_term
+//@   frame elems *raftpb.Entry:
+//@   reveal wf_raftLog, wf_unstable, wf_storage, log_term, log_ent
 //@   reveal termsMonotone
 //@   requires wf_raftLog(l)
 //@   requires #bounds [C14] lo <= hi && hi <= log_last(l) + 1
@@ -465,6 +466,7 @@ package raft
 //@        ==> elem(result0, p) == st_ent(l.storage, i))
 //@   ensures #run-unstable [C18 C08] lo >= log_first(l) && lo < hi ==> (forall p int, i int, q int :: result0.off <= p && p < result0.off + len(result0) && i == lo + (p - result0.off) && i >= l.unstable.offset
 //@        && q == l.unstable.entries.off + (i - l.unstable.offset) ==> elem(result0, p) == old(elem(l.unstable.entries, q)))
+//@   ensures #run-view [C18 C08] lo >= log_first(l) && lo < hi ==> (forall p int :: {elem(result0, p)} result0.off <= p && p < result0.off + len(result0) ==> elem(result0, p) == log_ent(l, lo + (p - result0.off)))
 //@   ensures #budget [C16 C18] lo >= log_first(l) && lo < hi ==> (len(result0) <= 1 || sumsize(result0, len(result0)) <= maxSize)
 //@   ensures #no-overwrite [C18] forall p int :: l.unstable.entries.off <= p && p < l.unstable.entries.off + len(l.unstable.entries) ==> elem(l.unstable.entries, p) == old(elem(l.unstable.entries, p))
 //@   ensures #view-kept [C18] forall i int :: log_has(l, i) ==> log_term(l, i) == old(log_term(l, i))
@@ -1109,14 +1111,29 @@ package raft
 //@        && r.trk.Progress == old(r.trk.Progress) && r.trk.Votes == old(r.trk.Votes)
 //@   ensures #wf wf_raft(r) && hs_monotone(r)
 
-//@ -- "a committed configuration change has not been applied yet": TODO verify the body (scan with a callback); until then the
-//@ -- intended result is an assumed contract (listed in the evidence)
-//@ ufun confChangeIn(l *raftLog, lo uint64, hi uint64) bool
-//@ func raft.raft.hasUnappliedConfChanges [C10]
-//@   trusted
-//@   pure
+//@ -- "a committed configuration change has not been applied yet": some entry in [lo, hi) of the log is a conf change
+//@ pred opaque confChangeIn(l *raftLog, lo uint64, hi uint64) := exists i int :: lo <= i && i < hi && allocated(log_ent(l, i)) && isConfEntry(log_ent(l, i))
+//@ -- scan and the callback are verified in the context of this caller (they are inlined; their loop invariants may name r and found)
+//@ func raft.raftLog.scan
+//@   inline
+//@   loop 1 invariant #scanned entry(lo) <= lo && lo <= hi && !found && wf_raftLog(l) && log_cursors_kept(l) && l.unstable.snapshot == nil
+//@        && l.unstable.entries == old(l.unstable.entries) && l.unstable.offset == old(l.unstable.offset)
+//@   loop 1 invariant #none-so-far forall i int :: {log_ent(l, i)} entry(lo) <= i && i < lo ==> !isConfEntry(log_ent(l, i))
+//@   loop 1 invariant #entries-frame frameexcept("E$*raftpb.Entry")
+//@ func raft.raft.hasUnappliedConfChanges$1
+//@   inline
+//@   loop 1 invariant #window 0 <= iter && iter <= len(ents)
+//@   loop 1 invariant #not-found !found
+//@   loop 1 invariant #none-in-window forall p int :: {elem(ents, p)} ents.off <= p && p < ents.off + iter ==> !isConfEntry(elem(ents, p))
+//@ func raft.raft.hasUnappliedConfChanges [C10 C14]
+//@   frame elems *raftpb.Entry:
 //@   requires wf_raft(r)
-//@   ensures result == (r.raftLog.applied < r.raftLog.committed && confChangeIn(r.raftLog, r.raftLog.applied + 1, r.raftLog.committed + 1))
+//@   -- callers check promotable() first, which excludes a pending snapshot: the unapplied committed entries are all in the log
+//@   requires #no-pending-snapshot [C14] r.raftLog.unstable.snapshot == nil
+//@   reveal wf_raftLog, wf_unstable, wf_storage, log_ent, confChangeIn
+//@   ensures #def [C10] result <==> (r.raftLog.applied < r.raftLog.committed && confChangeIn(r.raftLog, r.raftLog.applied + 1, r.raftLog.committed + 1))
+//@   ensures #unchanged node_unchanged(r)
+//@   ensures #wf wf_raft(r)
 
 //@ func raft.raft.campaign [C02 C17 C05 C19]
 //@   requires wf_raft(r)
